@@ -284,7 +284,7 @@ class Verdict:
         flat = dict(item.get("case", item))
         flat["obs"] = item.get("obs", flat.get("obs"))
         for f in self.findings:
-            if sig_matches(f["signature"], flat):
+            if any(sig_matches(sg, flat) for sg in f.get("signatures", [f.get("signature")]) if sg is not None):
                 self.known[f["what"]] = self.known.get(f["what"], 0) + 1
                 return
         sigtext = sigtext or default_sig(item)
